@@ -13,6 +13,8 @@ CHECKS = {
          "agreement through the common reference; as C01", "6/C12", None),
  "C13": ("model_checking", "Generated conventional files with one injected malformed line of each kind at each position: specific error code, file path and 1-based line, NULL out-pointer; n-th consulted file malformed in every entry point aborts with that code and nothing partial; missing file; code/message table complete and distinct.",
          "layouts concrete, characters symbolic (as C02); as C01 for the layered part", "6/C13", None),
+ "C15": ("model_checking", "Option strings (every documented item alone, repeated, combined in sampled orders, with unknown/misspelt/empty items): accepted iff all items documented, each effect as documented with last occurrence winning, option-not-found otherwise, no leak. JOIN_SAME_ENTRIES pass on objects with enumerated key and empty-definition patterns (symbolic value characters) against the reference of DESIGN.md 5.2. PYTHON_STYLE on generated layouts with indented lines containing delimiter and comment characters.",
+         "option strings and join patterns concrete per instance; python layouts as C02", "5.2, 6/C15", None),
  "C16": ("model_checking", "Reader harness decides every combination of file owner/group/kind with every combination of active restrictions, required ids and reset; layered-read harness shows every entry point aborts with the restriction's code on the refused file and hands back no content.",
          "kernel ownership/symlink semantics modelled by lstat attributes", "6/C16", None),
  "C17": ("model_checking", "For each enumerated layout the stored and the extended metadata of every key equal the spans of the generated file: absolute path (also for a relative name), line on which the entry ends, preceding comment lines, trailing comment, blank-trimmed value lines; all field characters symbolic.",
